@@ -1,6 +1,6 @@
 /- op "c08": the exporter model, the SBML reading of its output and the original model's meaning.
 
-request  {"op":"c08","model":<PyModel>,"states":[[[var,"q"],..],..]}
+request  {"op":"c08","model":<PyModel>,"states":[[[var,"q"],..],..],"compartments": null | [[id,"size"],..]}
 answer   {"unsupported": bool,
           "export": {"err": <class>} | {"ok": <SDoc>},
           "names":  [[orig, imported], ..]      (variables, parameters, derived, reactions)
@@ -11,6 +11,7 @@ request  {"op":"c08","escape":[id,prefix]} → {"escape": {"ok":s}|{"err":..}, "
 -/
 import Driver.Wire
 import MxlVerif.Model.C08Doc
+import MxlVerif.Model.C08Compartment
 open Lean Mxl Mxl.Wire Mxl.C08
 namespace Driver.H_c08
 
@@ -151,6 +152,14 @@ def sdocJ (d : SDoc) : Json :=
               ("inits", assocJ mathJ d.inits), ("rules", assocJ mathJ d.rules),
               ("rxns", .arr (d.rxns.map srxnJ).toArray)]
 
+def sspeciesJ (x : SSpecies) : Json :=
+  .arr #[.str x.id, .str x.compartment, .bool x.hosu, .str (if x.initAmount then "amount" else "concentration")]
+
+/-- the document of `writeModel`: the components of `exportModel` plus compartments and species attributes -/
+def sdoccJ (dc : SDocC) : Json :=
+  (sdocJ dc.doc).mergeObj (Json.mkObj [("compartments", assocJ ratJ dc.compartments),
+                                      ("species_attrs", .arr (dc.species.map sspeciesJ).toArray)])
+
 /-- no exact value for sqrt, ln, sin, … : such results are reported as null -/
 def noInterp : Interp := fun _ _ => none
 
@@ -180,10 +189,16 @@ def handleModel (j : Json) : Except String Json := do
     if varNames.contains n then "CPD" else if (m.params.map (·.1)).contains n then "PAR"
     else if (m.derived.map (·.1)).contains n then "AR" else "RXN"
   let names := allNames.map fun n => (n, importedName (kindOf n) n)
+  -- `write(model, file, compartments=…)`; the option is absent (null) or a list of (id, size)
+  let comps ← match j.getObjVal? "compartments" with
+    | .ok .null => pure none
+    | .ok cj => (jAssoc jRat cj).map some
+    | .error _ => pure none
+  let wr := writeModel m comps
   let ex := exportModel m
-  let base := [("unsupported", Json.bool unsupported), ("export", exJ sdocJ ex),
+  let base := [("unsupported", Json.bool unsupported), ("export", exJ sdoccJ wr), ("export_plain", exJ sdocJ ex),
                ("names", assocJ Json.str names), ("spec", spec)]
-  match ex with
+  match wr.bind (fun _ => ex) with
   | .error _ => pure (Json.mkObj base)
   | .ok d =>
     let d' := d.mapNames nameToPy
